@@ -208,7 +208,7 @@ def reparam_stream(ctx, scale=1):
     against the specification under the *last* selection (and the ep_param line against the table extracted from the source), and
     postprocess() compares every output with the output of a fresh process that made only the last selection."""
     import subprocess
-    import props.c03 as c03, props.c07 as c07
+    import props.c02 as c02, props.c03 as c03, props.c07 as c07
     exe = c03._exe(ctx, "base")
     ids = [cid for cid in c03.CURVES["base"]]
     probes, fresh = {}, {}
@@ -240,6 +240,13 @@ def reparam_stream(ctx, scale=1):
             lines.append("ep_param %d" % cid)
             last = k == len(order) - 1
             lines += probes[cid] if last else probes[cid][:4]
+    # the same curve selected again after the field alone was re-parameterised, and after the library was shut down and initialised again
+    # (a selection must never be skipped because "it is already active")
+    fids = list(c02.PRIMES["base"])
+    for a in ids:
+        for f in [fids[ctx.rng.below(len(fids))], fids[ctx.rng.below(len(fids))]]:
+            lines += ["ep_param %d" % a] + probes[a][:2] + ["fp_param %d" % f, "ep_param %d" % a] + probes[a][:12]
+        lines += ["ep_param %d" % a] + probes[a][:2] + ["core_reinit", "ep_param %d" % a] + probes[a][:12]
     ctx._c19_fresh = fresh
     return {"name": "reparam-base", "cfg": "base", "exe": exe, "lines": lines}
 
